@@ -182,7 +182,7 @@ Lemma voluntary_first_literal_refuted :
 Proof.
   exists cfg_w4, 0%N, [hdr; mkItem false (PFeatures [FC xa (str "a") false false; FC xb (str "b") false false; FC xc (str "c") true false])], [],
          [mkO st_Authn false false; mkO 0%N false false], [xa; xc].
-  exists (firstn 8 (trace w4_run)), (skipn 9 (trace w4_run)), fr3, st_Authn, (mkO 0%N false false), fv_authn.
+  exists (firstn 7 (trace w4_run)), (skipn 8 (trace w4_run)), fr3, st_Authn, (mkO 0%N false false), fv_authn.
   split; [vm_compute; reflexivity|]. vm_compute. auto 10.
 Qed.
 
